@@ -5,11 +5,11 @@
 package c17
 
 import (
-	"regexp"
 	"encoding/json"
 	"fmt"
 	"math"
 	"math/big"
+	"regexp"
 	"strings"
 	"testing"
 
